@@ -76,6 +76,10 @@ type Mint struct {
 	// proofsMu: checking that proofs are unspent and marking them pending or spent,
 	// settling or releasing pending proofs, and the state of the melt quote holding them.
 	proofsMu *sync.Mutex
+	// meltsInProgress: melt quotes that a MeltTokens call is working on right now, from setting
+	// them PENDING until it returns. That call settles or releases the quote and its proofs
+	// itself; until then a check of the quote's state leaves them alone. Guarded by proofsMu.
+	meltsInProgress map[string]struct{}
 }
 
 func LoadMint(config Config) (*Mint, error) {
@@ -132,6 +136,8 @@ func LoadMint(config Config) (*Mint, error) {
 
 		mintQuoteMu: &sync.Mutex{},
 		proofsMu:    &sync.Mutex{},
+
+		meltsInProgress: make(map[string]struct{}),
 	}
 	mint.db = verifWrapLoad(mint.db)
 
@@ -734,6 +740,13 @@ func (m *Mint) GetMeltQuoteState(ctx context.Context, quoteId string) (storage.M
 
 	// if quote is pending, check with backend if status of payment has changed
 	if meltQuote.State == nut05.Pending {
+		// a melt request is in the middle of paying this quote: its payment may not have reached
+		// the backend yet, or its outcome is about to be applied by that request. Resolving the
+		// quote from here as well could release its proofs while the payment is still on its way
+		if _, ok := m.meltsInProgress[quoteId]; ok {
+			return meltQuote, nil
+		}
+
 		m.logDebugf("checking status of payment with hash '%v' for melt quote '%v'",
 			meltQuote.PaymentHash, meltQuote.Id)
 
@@ -923,6 +936,13 @@ func (m *Mint) MeltTokens(ctx context.Context, meltTokensRequest nut05.PostMeltB
 		errmsg := fmt.Sprintf("error updating melt quote state: %v", err)
 		return storage.MeltQuote{}, cashu.BuildCashuError(errmsg, cashu.DBErrCode)
 	}
+	quoteInProgress := meltQuote.Id
+	m.meltsInProgress[quoteInProgress] = struct{}{}
+	defer func() {
+		m.proofsMu.Lock()
+		delete(m.meltsInProgress, quoteInProgress)
+		m.proofsMu.Unlock()
+	}()
 	unlock()
 
 	// before asking backend to send payment, check if quotes can be settled
